@@ -5,6 +5,7 @@ pub mod c15_bin;
 pub mod c15_codec;
 pub mod c07;
 pub mod c07_enc;
+pub mod c07_sam;
 pub mod c08;
 pub mod c08_tok;
 pub mod c08_order1;
@@ -26,6 +27,7 @@ pub mod c05;
 pub mod c05_reenc;
 pub mod c13;
 pub mod c13_more;
+pub mod c13_seek;
 pub mod c18;
 pub mod c10;
 pub mod c10_record;
